@@ -3,6 +3,10 @@
 package node
 
 import (
+	"bytes"
+	"compress/gzip"
+	"compress/lzw"
+	"compress/zlib"
 	"encoding/binary"
 	"encoding/hex"
 	"fmt"
@@ -107,6 +111,32 @@ func init() {
 			}
 			for _, l := range []uint32{1 << 16, 1 << 24, 1<<32 - 1} {
 				inputs = append(inputs, hdr(l, 1, 101, 40))
+			}
+			// a VALID compressed stream of a few bytes inside an envelope that declares a huge unpacked size
+			for _, algo := range []gen.CompressionType{gen.CompressionTypeGZIP, gen.CompressionTypeZLIB, gen.CompressionTypeLZW} {
+				var zb bytes.Buffer
+				switch algo {
+				case gen.CompressionTypeGZIP:
+					zw := gzip.NewWriter(&zb)
+					zw.Write([]byte("tiny"))
+					zw.Close()
+				case gen.CompressionTypeZLIB:
+					zw := zlib.NewWriter(&zb)
+					zw.Write([]byte("tiny"))
+					zw.Close()
+				default:
+					zw := lzw.NewWriter(&zb, lzw.LSB, 8)
+					zw.Write([]byte("tiny"))
+					zw.Close()
+				}
+				for _, sz := range []uint32{4, 5, 1 << 20, 1 << 26, 1 << 28, 1 << 30, 1<<32 - 1} {
+					body := 1 + 4 + zb.Len()
+					b := hdr(uint32(8+body), 1, 200, body)
+					b[8] = algo.ID()
+					binary.BigEndian.PutUint32(b[9:13], sz)
+					copy(b[13:], zb.Bytes())
+					inputs = append(inputs, b)
+				}
 			}
 			resume, _ := strconv.Atoi(os.Getenv("VERIF_RESUME"))
 			var ms runtime.MemStats
